@@ -5,12 +5,18 @@ set -u
 cd "$(dirname "$0")"
 export CARGO_NET_OFFLINE=true
 mkdir -p .cache/target evidence replays
-for c in harness/*/; do
-  [ -f "$c/Cargo.toml" ] || continue
-  n=$(basename "$c")
+# one cheap harness per crate is enough to compile and cache the dependency graph (code generation for ALL harnesses
+# of hemf - more than 500 - takes a quarter of an hour and is not needed: every check generates what it selects)
+warm() { # crate harness
+  c=harness/$1
   [ -f "$c/Cargo.lock" ] || cp /repo/Cargo.lock "$c/Cargo.lock"
-  (cd "$c" && cargo kani -Z unstable-options -Z stubbing --only-codegen --target-dir "$PWD/../../.cache/target/$n" >/dev/null 2>&1) || echo "warm-up of $n failed (checks will report details)"
-done
+  (cd "$c" && cargo kani -Z unstable-options -Z stubbing --only-codegen --harness "$2" --exact --target-dir "$PWD/../../.cache/target/$1" >/dev/null 2>&1) || echo "warm-up of $1 failed (checks will report details)"
+}
+warm hagg c11::midpoint_within_relative_error
+warm hcore c19::duration_reports_milliseconds
+warm hemf c02::clamp_to_finite_all_f64
+warm hmetrique c18::timer_first_stop_wins
+warm hwriter c12::fixed_fraction_emits_iff_draw_at_most_rate
 # the two native tests the driver runs for recorded defects in code the solver cannot execute (C05 guard, C08 finding)
 for pair in hemf:known_c08_dimension_key hwriter:regress_c05_forgotten_handle; do
   c=${pair%%:*}; t=${pair##*:}
